@@ -52,7 +52,7 @@ theorem HeapAdm.ensure2 (a : Alloc σ) (st : St σ) (xs xt : HObj) : HeapAdm st.
   exact (HeapAdm.register _ _).trans (HeapAdm.register _ _)
 
 theorem HeapAdm.frame {st st' : St σ} (f : Frame st st') : HeapAdm st.h st'.h :=
-  HeapAdm.shrink (fun _ hx => f.live ▸ hx) (fun _ ho => f.used ▸ ho) (fun _ ho => f.epoch ▸ ho)
+  HeapAdm.shrink (fun _ hx => f.live ▸ hx) (fun _ ho => f.used ▸ ho) (fun o ho => f.epoch o ho)
 
 /-- **step_heapAdm.** every operation of the model but `clear` is admissible -/
 theorem step_heapAdm (q : Quirks) (S : Schema) (a : Alloc σ) (ha : a.Valid) (st : St σ) (op : Op) (hI : Inv q st)
@@ -93,13 +93,13 @@ theorem step_heapAdm (q : Quirks) (S : Schema) (a : Alloc σ) (ha : a.Valid) (st
       split
       · have h0 : Inv q { st with h := st.h.write S f s t } := hI.heap_irrelevant _ (by simp) (by simp) (by simp)
         have e := h0.ensure2 ha xs xt (by simpa using (find_some hs).1) (by simpa using (find_some ht).1)
-        have k := e.1.addFact S S.fuel _ f _ _ false e.2.1 e.2.2.1
+        have k := e.1.addFact S ha S.fuel _ f _ _ false e.2.1 e.2.2.1
         have w : HeapAdm st.h (st.h.write S f s t) :=
           HeapAdm.shrink (fun x hx => by simpa using hx) (fun o ho => by simpa using ho) (fun o ho => by simpa using ho)
         exact ((w.trans (HeapAdm.ensure2 a { st with h := st.h.write S f s t } xs xt)).trans
           (HeapAdm.frame k.2)).trans (HeapAdm.collect q _)
       · have e := hI.ensure2 ha xs xt (find_some hs).1 (find_some ht).1
-        have k := e.1.addFact S S.fuel _ f _ _ false e.2.1 e.2.2.1
+        have k := e.1.addFact S ha S.fuel _ f _ _ false e.2.1 e.2.2.1
         have b := (HeapAdm.ensure2 a st xs xt).trans (HeapAdm.frame k.2)
         split
         · exact b
@@ -129,6 +129,18 @@ theorem step_heapAdm (q : Quirks) (S : Schema) (a : Alloc σ) (ha : a.Valid) (st
           unfold Heap.dropQuery; split <;> exact ho
         · show o ∈ ((st.h.dropQuery q k).collect q).epoch
           unfold Heap.dropQuery; split <;> exact ho
+  | newrole o c pid e =>
+    dsimp only
+    split
+    · exact HeapAdm.refl _
+    · rename_i hcond
+      simp only [Bool.or_eq_true, List.contains_iff_mem, not_or] at hcond
+      refine ⟨fun o' ho => by simp [ho], ?_, fun o' ho => by simp [ho]⟩
+      intro x hx
+      simp only [List.mem_append, List.mem_singleton] at hx
+      rcases hx with hx | rfl
+      · exact Or.inl hx
+      · exact Or.inr hcond.1.1
 
 /-! ### the invariant of an evaluation for the converse direction -/
 
